@@ -22,6 +22,22 @@ if _WS:
     for d in (vlib.REPLAYS, vlib.EVIDENCE):
         os.makedirs(d, exist_ok=True)
 
+# Which monitor tag this module is deciding: C10 (its own property) or, for the pass that bin/check C17 adds,
+# C17 — then only `MON C17` lines count and correspondence breaks are left to C10's check.
+TAG = ["C10"]
+WHAT = {"C10": PROP_WHAT,
+        "C17": "indices of dead entities are recycled: a never-used index is taken only when every lower index is occupied "
+               "by an entity that is alive or awaiting maintain (here: creations racing through shared access)"}
+
+
+def pd(lines):
+    r = vlib.parse_driver(lines)
+    r["mon"] = [m for m in r["mon"] if m.startswith("MON " + TAG[0] + " ")]
+    if TAG[0] != "C10":
+        r["diff"] = []
+    return r
+
+
 # the binary the helper functions below run: the all-features build, or the build against specs without `parallel`
 ACTIVE = [None]
 
@@ -95,7 +111,7 @@ def plan(tier, seed):
 def run_one(args, keep=None):
     label, tail = args
     lines, hrc, err = vlib.pipe_to_driver([bin_of(label)] + tail, timeout=3000, keep=keep)
-    r = vlib.parse_driver(lines)
+    r = pd(lines)
     r["label"], r["tail"], r["hrc"], r["err"] = label, tail, hrc, err
     return r
 
@@ -166,7 +182,7 @@ def run_case(case, timeout=120):
         f.write("case s\n" + "\n".join(case_lines(case)) + "\n")
     lines, hrc, err = vlib.pipe_to_driver([hb(), "run", path], timeout=timeout)
     os.unlink(path)
-    r = vlib.parse_driver(lines)
+    r = pd(lines)
     r["hrc"] = hrc
     return r
 
@@ -221,7 +237,7 @@ def search_from(case, seed, n=300):
             f.write(f"case c{i}\n" + "\n".join(case_lines(c)) + "\n")
     lines, hrc, err = vlib.pipe_to_driver([hb(), "run", path], timeout=300)
     os.unlink(path)
-    r = vlib.parse_driver(lines)
+    r = pd(lines)
     if r["mon"]:
         cid = vlib.field(r["mon"][0], "case")
         return cands[int(cid[1:])], r["mon"][0]
@@ -251,7 +267,7 @@ def report_failures(prop, tier, seed, results):
             os.unlink(keep)
             case = parse_case_block(block)
             path = vlib.write_replay(prop, f"hang-{seed}-{len(seen)}",
-                                     [NP_NOTE[0], f"property {prop}: {PROP_WHAT}", "a call did not terminate under this schedule (per-case timeout)",
+                                     [NP_NOTE[0], f"property {prop}: {WHAT[TAG[0]]}", "a call did not terminate under this schedule (per-case timeout)",
                                       f"found by: h_conc {' '.join(r['tail'])}", f"replay: bin/check {prop} --replay <this file>"],
                                      case_lines(case), "conc")
             print(f"VIOLATION property={prop} replay={path}")
@@ -262,7 +278,7 @@ def report_failures(prop, tier, seed, results):
             cid = vlib.field(first, "case")
             if cid.startswith("s"):     # stress run: no schedule to replay; the seed is the replay
                 path = vlib.write_replay(prop, f"stress-{seed}-{len(seen)}",
-                                         [NP_NOTE[0], f"property {prop}: {PROP_WHAT}", f"uncontrolled run on real threads failed: {first}",
+                                         [NP_NOTE[0], f"property {prop}: {WHAT[TAG[0]]}", f"uncontrolled run on real threads failed: {first}",
                                           f"re-run: build/harness-target/debug/h_conc {' '.join(r['tail'])} (real preemption: may need repeating)"])
                 print(f"VIOLATION property={prop} replay={path} no-failing-input-found")
                 violations += 1
@@ -279,7 +295,7 @@ def report_failures(prop, tier, seed, results):
                 rr = run_case(small)
                 verdict = (rr["mon"] or [first])[0]
                 path = vlib.write_replay(prop, f"{seed}-{len(seen)}",
-                                         [NP_NOTE[0], f"property {prop}: {PROP_WHAT}",
+                                         [NP_NOTE[0], f"property {prop}: {WHAT[TAG[0]]}",
                                           f"monitor verdict on the implementation's transcript: {verdict}",
                                           f"found by: h_conc {' '.join(r['tail'])} (case {cid}); schedule, programs and history minimised by ddmin",
                                           f"replay: bin/check {prop} --replay <this file>"], case_lines(small), "conc")
@@ -290,12 +306,12 @@ def report_failures(prop, tier, seed, results):
                     fc, m = found
                     fc = shrink(fc, "mon")
                     path = vlib.write_replay(prop, f"{seed}-{len(seen)}",
-                                             [NP_NOTE[0], f"property {prop}: {PROP_WHAT}", f"correspondence broke: {first}",
+                                             [NP_NOTE[0], f"property {prop}: {WHAT[TAG[0]]}", f"correspondence broke: {first}",
                                               f"directed search (other schedules of the same programs) found: {m}"], case_lines(fc), "conc")
                     print(f"VIOLATION property={prop} replay={path}")
                 else:
                     path = vlib.write_replay(prop, f"corr-{seed}-{len(seen)}",
-                                             [NP_NOTE[0], f"property {prop}: {PROP_WHAT}",
+                                             [NP_NOTE[0], f"property {prop}: {WHAT[TAG[0]]}",
                                               "the implementation left the Lean small-step model (SpecsModel.Conc.Model vs h_conc) under this schedule;",
                                               "the theorems of SpecsModel.Props.C10 therefore no longer speak about this code.",
                                               f"first divergence: {first}",
@@ -395,7 +411,37 @@ def check(prop, tier, seed, t0):
     return 1 if violations else 0
 
 
+def c17_pass(tier, seed):
+    """The pass bin/check C17 adds: scheduled and real-thread creation races, judged by the C17 monitor of the
+    driver (ConcDom `MON C17`) and of the stress runs (`c17:` token). Returns (violations, stats)."""
+    ok, blog = vlib.build_harness([BIN])
+    if not ok:
+        return 0, {"skipped": "h_conc does not build"}
+    TAG[0] = "C17"
+    try:
+        runs = []
+        for h in range(NHIST):
+            runs.append((f"exh2x1/h{h}", ["exh", "2", "1", str(h)]))
+        for i in range(6 if tier == "quick" else 24):
+            runs.append((f"gen{i}", ["gen", str(seed * 1000 + 900 + i), "600" if tier == "quick" else "2500", "6", "10"]))
+        for i, th in enumerate([4, 8, 16] if tier == "quick" else [2, 3, 4, 8, 8, 16, 16]):
+            runs.append((f"stress{th}", ["stress", str(seed * 100 + 40 + i), str(th), "3000" if tier == "quick" else "20000", "10"]))
+        with ThreadPoolExecutor(max_workers=8) as ex:
+            results = list(ex.map(run_one, runs))
+        v = report_failures("C17", tier, seed, results)
+        stats = {}
+        for r in results:
+            for k, x in r["stats"].items():
+                if isinstance(x, int):
+                    stats[k] = stats.get(k, 0) + x
+        return v, {"runs": [r["label"] for r in results], "cases": stats.get("cases", 0), "events": stats.get("events", 0),
+                   "cas_failures": stats.get("cas_failures", 0), "pops": stats.get("pops", 0), "stress_ok": stats.get("stress_ok", 0)}
+    finally:
+        TAG[0] = "C10"
+
+
 def replay(prop, path):
+    TAG[0] = prop if prop in WHAT else "C10"
     ok, blog = vlib.build_harness([BIN])
     if not ok:
         print(blog); return 2
@@ -407,7 +453,7 @@ def replay(prop, path):
     lines, hrc, err = vlib.pipe_to_driver([hb(), "run", path], timeout=120)
     for l in lines:
         print(l)
-    r = vlib.parse_driver(lines)
+    r = pd(lines)
     if r["mon"] or r["diff"] or r["hang"] or hrc == 3:
         print(f"VIOLATION property={prop} replay={path}")
         return 1
